@@ -128,7 +128,7 @@ func (c *checker) runWorker(gomaxprocs int, timeout time.Duration, extra ...stri
 	defer cancel()
 	cmd := exec.CommandContext(ctx, c.b.worker, args...)
 	cmd.Dir = c.scratch
-	env := []string{"PATH=" + os.Getenv("PATH"), "HOME=" + os.Getenv("HOME"), fmt.Sprintf("GOMAXPROCS=%d", gomaxprocs), "TZ=UTC"}
+	env := []string{"PATH=" + os.Getenv("PATH"), "HOME=" + os.Getenv("HOME"), fmt.Sprintf("GOMAXPROCS=%d", gomaxprocs), "TZ=UTC", "ZONEINFO=" + c.b.zoneinfo}
 	if c.cfg.Race {
 		env = append(env, "GORACE=halt_on_error=0 history_size=5 log_path="+racePrefix)
 	}
